@@ -159,7 +159,7 @@ func main() {
 				os.Exit(2)
 			}
 		}
-		if pk.name == "solver" && len(in.rep.Knobs) > 0 {
+		if pk.name == "solver" {
 			writeKnobFile(filepath.Join(*out, pk.dir, "verif_knobs.go"), in.rep.Knobs)
 		}
 	}
